@@ -175,7 +175,10 @@ func (m *KVMon[K, V]) Derive() {
 		m.c.Begin(m.A.Name, "Map", "keys permuted within the alphabet; the history continues on the result", perm)
 	}
 	cmN := NamedCmp[K]{Name: m.A.CmpName, F: m.A.KCmp}
-	oldFresh, oldName := m.A.Fresh, m.A.CmpName
+	oldFresh, oldName, oldCount := m.A.Fresh, m.A.CmpName, m.A.Count
+	if oldCount != nil {
+		*oldCount = -1 << 40 // n insertions into the result: no per-call bound applies
+	}
 	var na *KV[K, V]
 	switch t := m.A.Raw.(type) {
 	case *treemap.Map[K, V]:
@@ -196,7 +199,13 @@ func (m *KVMon[K, V]) Derive() {
 		na = newTreeBidiOn[K, V](cmN, NamedCmp[V]{Name: "values", F: m.A.VCmp}, func() any { return d })
 	}
 	na.Fresh, na.CmpName = oldFresh, oldName
+	if oldCount != nil {
+		// the result keeps the receiver's comparator, i.e. the closure that counts
+		// into the receiver's counter: the monitor must go on resetting THAT one
+		na.Count = oldCount
+	}
 	m.A = na
+	m.resetCount()
 	m.Mod.Clear()
 	if m.Inv != nil {
 		m.Inv.Clear()
